@@ -61,6 +61,63 @@ if rc:
     if "Driver" in bout and "error" in bout and not os.path.exists(LEAN + "/.lake/build/bin/driver"):
         machinery("model driver does not build:\n" + bout[-3000:])
 
+# 2b. tie 1b: the registry functions translated from /repo's Go source = the model (DESIGN §11)
+TIE_PROPS = {"C03", "C04", "C05", "C06", "C08", "C18", "C19"}
+TIE_THEOREMS = {".IsReservedWord": "IsReservedWord_eq", "File.isLocal": "isLocal_eq", "File.isValidAlias": "isValidAlias_eq",
+                "File.isDotImport": "isDotImport_eq", "File.prefixed": "prefixed_eq", ".guessAlias": "guessAlias_eq",
+                "File.register": "register_src_eq_model", "File.Anon": "Anon_eq", "File.ImportName": "ImportName_eq",
+                "File.ImportNames": "ImportNames_eq", "File.ImportAlias": "ImportAlias_eq"}
+syntactic_tie = None
+escalate = 1
+if prop in TIE_PROPS:
+    gen = open(LEAN + "/JenVerif/Gen/SrcRegistry.lean").read()
+    translated = {m.group(1): m.group(2) == "true" for m in re.finditer(r'\("([^"]+)", (true|false)\)', gen)}
+    rct, tie_out = sh("lake build JenVerif.Tie.Registry", cwd=LEAN, timeout=3000)
+    bad_thms, bad_files = set(), set()
+    if rct:
+        for m in re.finditer(r"error: (JenVerif/Tie/\S+?\.lean):(\d+):(\d+)", tie_out):
+            bad_files.add(m.group(1))
+            tsrc = open(LEAN + "/" + m.group(1)).read()
+            tl = [(mm.start(), mm.group(2)) for mm in re.finditer(r"^(theorem|lemma)\s+([A-Za-z0-9_.']+)", tsrc, re.M)]
+            ln = int(m.group(2))
+            cur = None
+            for pos, name in tl:
+                if tsrc.count("\n", 0, pos) + 1 <= ln: cur = name
+            if cur: bad_thms.add(cur)
+    syntactic_tie = {}
+    THM_FILE = {t: "JenVerif/Tie/RegistrySrc.lean" for t in TIE_THEOREMS.values()}
+    THM_FILE.update({"guessAlias_eq": "JenVerif/Tie/GuessAliasSrc.lean", "register_src_eq_model": "JenVerif/Tie/Registry.lean"})
+    DEPS = {"JenVerif/Tie/RegistrySrc.lean": [], "JenVerif/Tie/GuessAliasSrc.lean": [],
+            "JenVerif/Tie/RegisterSrc.lean": ["JenVerif/Tie/RegistrySrc.lean"],
+            "JenVerif/Tie/Registry.lean": ["JenVerif/Tie/RegisterSrc.lean", "JenVerif/Tie/GuessAliasSrc.lean", "JenVerif/Tie/RegistrySrc.lean"]}
+    gen_broken = rct and ("Gen/SrcRegistry.lean" in tie_out and "error" in tie_out and not bad_files)
+    for fn_, thm in TIE_THEOREMS.items():
+        tf = THM_FILE[thm]
+        if not translated.get(fn_):
+            syntactic_tie[fn_] = "untranslated (outside the translated subset of Go); behavioural tie only"
+        elif not rct:
+            syntactic_tie[fn_] = "proved: translated definition = model (Tie.%s)" % thm
+        elif thm in bad_thms or (thm == "register_src_eq_model" and ("register_eq" in bad_thms or "guessAlias_eq" in bad_thms)):
+            syntactic_tie[fn_] = "NOT proved equal to the model (Tie.%s no longer checks); behavioural tie only" % thm
+        elif gen_broken or any(d in bad_files for d in DEPS[tf]):
+            syntactic_tie[fn_] = "unchecked (a module it depends on does not build); behavioural tie only"
+        else:
+            syntactic_tie[fn_] = "proved: translated definition = model (Tie.%s)" % thm
+    if rct or not all(translated.get(k) for k in TIE_THEOREMS):
+        escalate = 6
+
+# 2c. fingerprints of /repo's functions against the committed baseline: a changed function makes
+# the correspondence and the oracles run with the escalated budget (never a failure by itself)
+def fp_entries(path):
+    try:
+        return dict(re.findall(r'\(b!"([^"]+)", b!"([0-9a-f]+)"\)', open(path).read()))
+    except OSError:
+        return {}
+fp_now, fp_base = fp_entries(LEAN + "/JenVerif/Gen/Fingerprints.lean"), fp_entries(V + "/translator/fingerprints.baseline")
+fp_changed = sorted(k for k in set(fp_now) | set(fp_base) if fp_now.get(k) != fp_base.get(k))
+if fp_changed:
+    escalate = 6
+
 # forbidden constructs
 grep_hits = []
 rcg, gout = sh(r"(grep -rnwE 'sorry|admit|native_decide|bv_decide|implemented_by|unsafe' --include=*.lean JenVerif Driver.lean; grep -rnE '^axiom |maxHeartbeats 0' --include=*.lean JenVerif Driver.lean) | grep -v '^[^:]*:[0-9]*:\s*--' || true", cwd=LEAN)
@@ -72,8 +129,12 @@ for l in gout.splitlines():
 
 # axioms
 axioms = {}
+tie_axioms = None
+tie_proved = syntactic_tie is not None and all(v.startswith("proved") for v in syntactic_tie.values())
 if not rc and obligations:
     audit = "import JenVerif.Props.%s\n" % prop + "".join("#print axioms %s.%s\n" % (prop, n) for n in obligations)
+    if tie_proved:
+        audit = "import JenVerif.Tie.Registry\n" + audit + "".join("#print axioms Tie.%s\n" % t for t in sorted(set(TIE_THEOREMS.values()) | {"register_src_keeps_invariant", "register_src_fuel_stable"}))
     ap = "%s/audit_%s.lean" % (BUILD, prop)
     open(ap, "w").write(audit)
     rca, aout = sh("lake env lean %s" % ap, cwd=LEAN, timeout=600)
@@ -82,6 +143,10 @@ if not rc and obligations:
         axioms[m.group(1).split(".", 1)[-1]] = [a.strip() for a in (m.group(3) or "").split(",") if a.strip()]
     bad = {n: a for n, a in axioms.items() if set(a) - ALLOWED_AXIOMS}
     missing = [n for n in obligations if n not in axioms]
+    if tie_proved and "register_src_eq_model" not in axioms: missing.append("Tie.register_src_eq_model")
+    tie_axioms = {k: v for k, v in axioms.items() if k in TIE_THEOREMS.values() or k.startswith("register_src_")}
+    for k in tie_axioms: axioms.pop(k)
+    bad.update({n: a for n, a in tie_axioms.items() if set(a) - ALLOWED_AXIOMS})
     if bad or grep_hits or rca or missing:
         machinery("proof audit failed: axioms=%s grep=%s\n%s" % (bad, grep_hits, aout[-2000:] if rca else ""))
 elif grep_hits:
@@ -120,6 +185,8 @@ if rc2:
 part = "%s/evidence_%s.json" % (BUILD, prop)
 if os.path.exists(part): os.remove(part)
 cmd = "%s check %s --tier %s --seed %d --evidence %s --replays %s/replays --known %s/known_findings.json --corpus %s/corpus" % (hbin, prop, tier, seed, part, V, V, V)
+if escalate > 1:
+    cmd += " --escalate %d" % escalate
 if failed:
     cmd += " --failed-obligations '%s'" % ",".join("JenVerif.Props.%s.%s" % (prop, f) if not f.startswith("<") else f for f in failed)
 env_extra = "GORACE='halt_on_error=0 exitcode=66' " if race else ""
@@ -154,6 +221,8 @@ ev = {
                          "go/format, go/parser, fmt/strconv, Go map semantics, io/os: modelled as parameters (DESIGN.md §6)"],
         "theorems": obligations, "failed_obligations": failed, "axioms": axioms, "leanchecker": leanchecker,
         "regenerated_tables": tout.strip(),
+        "syntactic_tie": syntactic_tie, "syntactic_tie_axioms": tie_axioms,
+        "changed_functions_vs_baseline": fp_changed, "budget_escalation": escalate,
         "evaluations": h.get("correspondence_cases", 0) + h.get("oracle_cases", 0),
         "distinct_nontrivial": h.get("distinct_nontrivial", 0),
         "rule": "recipes from the seeded generators of /verif/harness (DESIGN.md §2.4); distinct = distinct recipe text with at least one render op executed",
